@@ -142,6 +142,7 @@ func checkC06(c *Ctx) {
 		ruleDedupeKeying(c, dv, paths)
 	}
 	ruleRestValueConstant(c, dv)
+	ruleNormalisation(c, dv, "R6.5")
 	c.MinCount("R6.1", 2)
 	c.MinCount("R6.2", 2)
 	c.MinCount("R6.3", 6)
@@ -552,4 +553,67 @@ func ruleRestValueConstant(c *Ctx, dv *dev) {
 		c.Bad("R6.2", "device.handleABSEvent/in-deadzone-rest-value", c.P.Pos(fn.Pos()), fmt.Sprintf("found %d in-deadzone branches assigning the literal 0 (expected one per sign): positions inside the deadzone may transmit a computed value instead of exactly the rest value", n))
 	}
 	_ = token.NoPos
+}
+
+// ruleNormalisation: the raw value is divided by |min| when negative and by |max| otherwise,
+// so that positions within the reported range normalise into [-1, 1] (necessary for every later stage,
+// in particular for the Control Change value byte staying within 0..127).
+func ruleNormalisation(c *Ctx, dv *dev, rule string) {
+	fn := dv.fn["handleABSEvent"]
+	vw := NewFnView(c.P, fn)
+	okNeg, okPos := false, false
+	bad := ""
+	var pos token.Pos
+	for _, b := range fn.Blocks {
+		for _, in := range b.Instrs {
+			bo, ok := in.(*ssa.BinOp)
+			if !ok || bo.Op != token.QUO {
+				continue
+			}
+			if bt, ok := bo.Type().Underlying().(*types.Basic); !ok || bt.Info()&types.IsFloat == 0 {
+				continue
+			}
+			numT := vw.Term(bo.X)
+			den := vw.Term(bo.Y).String()
+			if numT.Op != "convert" || !strings.HasSuffix(numT.Args[0].String(), "Event.Value") {
+				continue // not the normalisation of the raw position
+			}
+			pos = bo.Pos()
+			// the sign of the raw value established by the dominating conditions
+			sign := ""
+			for _, a := range vw.GuardsAt(b) {
+				op, l, r, ok := normAtom(a)
+				if !ok || !strings.Contains(l.String(), "Event.Value") {
+					continue
+				}
+				if k, isK := r.IsIntConst(); isK && k == 0 {
+					switch op {
+					case "<":
+						sign = "neg"
+					case ">=":
+						sign = "nonneg"
+					}
+				}
+			}
+			switch {
+			case sign == "neg" && strings.Contains(den, ".Minimum") && strings.Contains(den, "math.Abs"):
+				okNeg = true
+			case sign == "nonneg" && strings.Contains(den, ".Maximum"):
+				okPos = true
+			case sign == "":
+				bad = "the raw position is divided by " + den + " without distinguishing negative from non-negative positions: on two's-complement axes (min = -128, max = 127) the minimum end stop normalises below -1.0 and the Control Change value byte leaves 0..127"
+			default:
+				bad = fmt.Sprintf("%s positions are divided by %s", sign, den)
+			}
+		}
+	}
+	key := "device.handleABSEvent/normalisation-by-min-and-max"
+	if bad == "" && okNeg && okPos {
+		c.OK(rule, key, c.P.Pos(pos), "negative positions / |min|, non-negative positions / |max|")
+	} else {
+		if bad == "" {
+			bad = fmt.Sprintf("normalisation of negative positions by |Minimum| found=%v, of non-negative positions by |Maximum| found=%v", okNeg, okPos)
+		}
+		c.Bad(rule, key, c.P.Pos(pos), bad)
+	}
 }
